@@ -67,7 +67,7 @@ static std::string get_readable_dname(std::string& wire_dname)
 
     while (label_len != 0) {
         size += label_len;
-        if (size > dname.size())
+        if (size > dname.size() || pos > dname.size())
             return wire_dname;
 
         labels++;
